@@ -8,7 +8,9 @@ import core
 import toy
 from props import c02, c08
 
-REQUIRED_THEOREMS = ['C19_eval_preserves_equiv', 'C19_sequence_is_pointwise', 'C19_interleave',
+REQUIRED_THEOREMS = ['C19_construct_leaves_ingredient', 'C19_constructions_agree', 'C19_construct_in_place_counterexample',
+                     'C19_in_place_invisible_for_sorted_times', 'C19_memo_by_value_pure',
+                     'C19_memo_by_reference_counterexample', 'C19_eval_preserves_equiv', 'C19_sequence_is_pointwise', 'C19_interleave',
                      'C19_switch_history_free', 'C19_result_stable', 'C19_alias_counterexample',
                      'C19_frame', 'C19_deep_copy_isolated', 'C19_mixed_history', 'C19_shared_cell_counterexample',
                      'C19_sens_columns_follow_configuration', 'C19_reconfigure_history_free',
@@ -22,7 +24,16 @@ RULE = ('for every kind of evaluable object (reduced error / mechanistic / popul
         'enable_sensitivities calls and compared with a twin that went through the re-configurations only (and, '
         'for a reduced mechanistic model, with the closed form and the Lean switch model); data frames and '
         'dictionaries handed to a ProblemModellingController (with / without dose and duration columns and keys) '
-        'are compared before / after; a forked pints.ParallelEvaluator is compared with the sequential one; '
+        'are compared before / after; population models with covariates (bare, composed, below a '
+        'ReducedPopulationModel), population filters and population-filter posteriors (measurement times in any '
+        'order, every kind of population model) are among the evaluated objects, and half of the callers keep ONE '
+        'parameter array that they overwrite in place before every call; several objects are built one after the '
+        'other from the SAME user objects (filter, times, models, prior, covariates; individual likelihoods and '
+        'population model) and evaluated in between, against objects built from ingredients of their own, what '
+        'the caller can observe of his ingredients is compared before / after every construction, and the '
+        'measurement columns held by the caller\'s filter and by every built posterior are compared with the Lean '
+        'store model; a forked pints.ParallelEvaluator and the sequential one (individual, hierarchical and '
+        'population-filter posteriors) are compared with single evaluations of objects of their own; '
         'non-trivial = interleaving of >=2 evaluation kinds with fixed parameters or >=2 objects; distinct = '
         '(object kind, interleaving shape)')
 ASSUMPTIONS = ['process forking / pickling is runtime behaviour: observed, not proved',
@@ -71,6 +82,252 @@ def near(a, b):
     if a.dtype == object or b.dtype == object:
         return same(a, b)
     return bool(np.allclose(a, b, rtol=1e-9, atol=1e-12, equal_nan=True))
+
+
+FILTER_CLASSES = ['GaussianFilter', 'GaussianKDEFilter', 'GaussianMixtureFilter', 'LogNormalFilter',
+                  'LogNormalKDEFilter']
+
+
+class FilterMaker(object):
+    """measurements of one data set and the population filter (elementary, or composed of two blocks of time
+    points) built from them; calling it builds a new filter object"""
+
+    def __init__(self, chi, rng, n_obs, n_times):
+        self.chi, self.n_obs, self.n_times = chi, n_obs, n_times
+        blocks = [n_times]
+        if n_times >= 2 and rng.random() < 0.3:
+            cut = int(rng.integers(1, n_times))
+            blocks = [cut, n_times - cut]
+        self.classes = [FILTER_CLASSES[int(rng.integers(5))] for _ in blocks]
+        n_ids = int(rng.integers(3, 7))
+        self.arrays = []
+        for b in blocks:
+            d = rng.uniform(0.5, 2.0, (n_ids, n_obs, b))
+            if rng.random() < 0.25:
+                d[int(rng.integers(n_ids)), int(rng.integers(n_obs)), int(rng.integers(b))] = np.nan    # not measured
+            self.arrays.append(d)
+        self.kind = 'Composed' if len(blocks) > 1 else self.classes[0]
+
+    def __call__(self, arrays=None):
+        arrays = self.arrays if arrays is None else arrays
+        fs = [getattr(self.chi, c)(a) for c, a in zip(self.classes, arrays)]
+        return fs[0] if len(fs) == 1 else self.chi.ComposedPopulationFilter(fs)
+
+
+def is_numeric_snapshot(u):
+    return isinstance(u, np.ndarray) or (isinstance(u, tuple) and len(u) > 0 and all(is_numeric_snapshot(w) for w in u))
+
+
+def obs_equal(a, b):
+    """two dictionaries of observations (arrays / tuples of arrays: equal element by element, nan = nan; anything
+    else: ==); returns the keys that differ"""
+    bad = []
+    for k in a:
+        u, v = a[k], b.get(k)
+        if is_numeric_snapshot(u):
+            ok = is_numeric_snapshot(v) and same(u, v)
+        else:
+            ok = not is_numeric_snapshot(v) and (u == v)
+        if not ok:
+            bad.append(k)
+    return bad
+
+
+def attempt(f):
+    try:
+        with np.errstate(all='ignore'):
+            return snap(f())
+    except Exception as e:  # noqa
+        return 'raises ' + type(e).__name__
+
+
+class FilterProblem(object):
+    """a population-filter inference problem: measurements (filter), measurement times in the order of the data
+    columns (not necessarily increasing), a toy mechanistic model, a population model (bare, composed, with
+    covariates, with fixed parameters), prior, sigma fixed or inferred, covariates of the simulated individuals"""
+
+    def __init__(self, chi, rng, pop_kinds=(0, 1, 2, 3, 3, 4, 5, 5, 6, 7)):
+        self.chi = chi
+        n_obs, n_t = int(rng.integers(1, 3)), int(rng.integers(2, 5))
+        self.n_par = nd = int(rng.integers(2, 4))
+        self.seed = int(rng.integers(1000))
+        self.fm = FilterMaker(chi, rng, n_obs, n_t)
+        times = np.sort(rng.choice(np.arange(1, 16) * 0.5, n_t, replace=False))
+        self.sorted = bool(rng.random() < 0.25)
+        if not self.sorted:
+            while True:
+                perm = rng.permutation(n_t)
+                if not np.all(perm == np.arange(n_t)):
+                    break
+            times = times[perm]
+        self.times = times
+        self.n_s = int(rng.integers(2, 5))
+        if 'GaussianMixtureFilter' in self.fm.classes and self.n_s % 2:
+            self.n_s += 1        # (a mixture filter takes a multiple of its number of kernels)
+        self.sigma = None if rng.random() < 0.3 else [float(v) for v in rng.uniform(0.1, 0.5, n_obs)]
+        self.log_scale = bool(rng.random() < 0.5)
+        self.pop_kind = pk = int(rng.choice(list(pop_kinds)))
+        nc = int(rng.integers(1, 3))
+        centered = bool(rng.random() < 0.5)
+        lognormal = bool(rng.random() < 0.5)
+        ndc = {2: nd, 3: nd, 4: 1, 5: nd - 1}.get(pk, 1)
+        sel = None
+        if rng.random() < 0.7:
+            allp = [[p_, d] for p_ in range(2) for d in range(ndc)]
+            sel = [allp[int(j)] for j in rng.choice(len(allp), size=int(rng.integers(1, len(allp) + 1)), replace=False)]
+
+        def covm(n):
+            m = chi.CovariatePopulationModel(chi.GaussianModel(n_dim=n, centered=centered), chi.LinearCovariateModel(nc))
+            if sel is not None:
+                m.set_population_parameters(sel)
+            return m
+
+        def inner():
+            if pk == 0:
+                return (chi.LogNormalModel if lognormal else chi.GaussianModel)(n_dim=nd, centered=centered)
+            if pk == 1:
+                return chi.ComposedPopulationModel([chi.PooledModel(n_dim=1), chi.GaussianModel(n_dim=nd - 1)])
+            if pk in (2, 3):
+                return covm(nd)
+            if pk == 4:
+                return covm(1)
+            if pk == 5:
+                return chi.ComposedPopulationModel([chi.GaussianModel(n_dim=1, centered=centered), covm(nd - 1)])
+            if pk == 6:
+                return (chi.LogNormalModel if lognormal else chi.GaussianModel)(n_dim=nd)
+            return chi.ComposedPopulationModel([chi.HeterogeneousModel(n_dim=1), chi.LogNormalModel(n_dim=nd - 1)])
+        self.fixed = None
+        if pk in (3, 4, 5, 6):
+            nm = inner().get_parameter_names()
+            self.fixed = {nm[int(j)]: float(rng.uniform(0.5, 1.2))
+                          for j in rng.choice(len(nm), size=int(rng.integers(1, 3)), replace=False)}
+
+        def pop():
+            m = inner()
+            if self.fixed is not None:
+                m = chi.ReducedPopulationModel(m)
+                m.fix_parameters(dict(self.fixed))
+            if pk == 4:
+                m = chi.ComposedPopulationModel([m, chi.GaussianModel(n_dim=nd - 1)])
+            return m
+        self.pop = pop
+        scratch = pop()
+        scratch.set_n_ids(self.n_s)
+        self.n_cov = scratch.n_covariates()
+        self.n_top = scratch.n_parameters() + (n_obs if self.sigma is None else 0)
+        self.n_hdim = scratch.n_hierarchical_dim()
+        self.cov = None
+        if self.n_cov:
+            self.cov = rng.normal(size=(self.n_s if rng.random() < 0.7 else 1, self.n_cov)) * 0.3
+        self.prior_args = [(float(rng.uniform(-0.2, 0.2)), float(rng.uniform(0.3, 0.5))) for _ in range(self.n_top)]
+        self.n = self.n_top + self.n_s * (self.n_hdim + n_t * n_obs)
+        self.kind = 'PopulationFilterLogPosterior/%s/pop%d/%s' % (self.fm.kind, pk, 'sorted' if self.sorted else 'unsorted')
+        self.arrays = self.fm.arrays + [self.times] + ([] if self.cov is None else [self.cov])
+        self.probe = rng.uniform(0.5, 2.0, (3, n_obs, n_t))
+        self.rng = rng
+
+    def ingredients(self):
+        """user objects of their own (data, times, covariates: copies)"""
+        pr = [pints.LogNormalLogPrior(a, b) for a, b in self.prior_args]
+        return {'filter': self.fm([a.copy() for a in self.fm.arrays]), 'times': self.times.copy(),
+                'mech': toy.ToyModel(self.fm.n_obs, self.n_par, self.seed), 'pop': self.pop(),
+                'prior': pints.ComposedLogPrior(*pr) if len(pr) > 1 else pr[0],
+                'sigma': None if self.sigma is None else list(self.sigma),
+                'cov': None if self.cov is None else self.cov.copy()}
+
+    def build_from(self, ing, variant=None):
+        log_scale = self.log_scale if variant is None else bool(variant)
+        return self.chi.PopulationFilterLogPosterior(
+            ing['filter'], ing['times'], ing['mech'], ing['pop'], ing['prior'], sigma=ing['sigma'],
+            error_on_log_scale=log_scale, n_samples=self.n_s, covariates=ing['cov'])
+
+    def build(self):
+        return self.build_from(self.ingredients())
+
+    def points(self, k):
+        xs = []
+        for _ in range(k):
+            x = self.rng.uniform(0.5, 1.5, self.n)
+            x[self.n_top + self.n_s * self.n_hdim:] = self.rng.normal(size=self.n - self.n_top - self.n_s * self.n_hdim) * 0.5
+            xs.append(x)
+        return xs
+
+    def observe(self, ing):
+        """what the caller can see of the objects it handed over, through their public methods"""
+        f, mech, pop = ing['filter'], ing['mech'], ing['pop']
+        top = np.linspace(0.7, 1.2, self.n_top)
+        o = {'filter.compute_log_likelihood(probe)': attempt(lambda: f.compute_log_likelihood(self.probe.copy())),
+             'filter.compute_sensitivities(probe)': attempt(lambda: f.compute_sensitivities(self.probe.copy())),
+             'filter.n_times, n_observables': (f.n_times(), f.n_observables()),
+             'times': ing['times'].copy(), 'sigma': None if ing['sigma'] is None else list(ing['sigma']),
+             'covariates': None if ing['cov'] is None else ing['cov'].copy(),
+             'mechanistic_model: parameters, outputs, has_sensitivities':
+                 (list(mech.parameters()), list(mech.outputs()), bool(mech.has_sensitivities())),
+             'mechanistic_model.simulate': attempt(lambda: mech.simulate(np.linspace(0.6, 1.1, self.n_par), [0.5, 2.0])),
+             'population_model: names, n_parameters, n_ids, n_hierarchical_dim, n_covariates':
+                 (list(pop.get_parameter_names()), pop.n_parameters(), pop.n_ids(), pop.n_hierarchical_dim(),
+                  pop.n_covariates()),
+             'log_prior(point)': attempt(lambda: ing['prior'](top))}
+        return o
+
+    def mutate(self, ing, rng):
+        """the user goes on working with his own objects"""
+        n_t = len(ing['times'])
+        ing['filter'].sort_times(np.arange(n_t)[::-1])
+        ing['mech'].set_parameter_names({'psi0': 'renamed'})
+        ing['mech']._c[:] = 7.0         # the user's own model class, not chi's
+        ing['mech'].enable_sensitivities(True)
+        ing['pop'].set_n_ids(7)
+        ing['pop'].set_dim_names(['dim %d' % d for d in range(self.n_par)])
+        if self.fixed is not None and self.pop_kind != 4:
+            ing['pop'].fix_parameters({k: 3.0 for k in self.fixed})
+
+
+class HierProblem(object):
+    """individual likelihoods, a composed population model and covariates from which hierarchical likelihoods /
+    posteriors are built"""
+
+    def __init__(self, chi, rng):
+        self.chi = chi
+        self.n_ids, self.subs = c02.gen_case(rng)
+        self.D = sum(nd for _, nd, _, _ in self.subs)
+        n_cov = sum(nc for _, _, nc, _ in self.subs)
+        self.cov = rng.normal(size=(self.n_ids, n_cov)) * 0.3 if n_cov else None
+        self.data = [(list(np.sort(rng.choice(np.arange(1, 20) * 0.5, 2, replace=False))), list(rng.uniform(0.5, 3, 2)))
+                     for _ in range(self.n_ids)]
+        self.kind = 'HierarchicalLogLikelihood'
+        h = self.build_from(self.ingredients(), 0)
+        self.n = h.n_parameters()
+        self.n_top = h.n_parameters(exclude_bottom_level=True)
+        self.rng = rng
+
+    def ingredients(self):
+        chi = self.chi
+        return {'lls': [chi.LogLikelihood(toy.ToyModel(1, self.D - 1, 3), chi.GaussianErrorModel(), o, t)
+                        for t, o in self.data],
+                'pop': chi.ComposedPopulationModel([c02.make_sub(chi, *s, n_ids=self.n_ids) for s in self.subs]),
+                'cov': None if self.cov is None else self.cov.copy()}
+
+    def build_from(self, ing, variant=None):
+        h = self.chi.HierarchicalLogLikelihood(ing['lls'], ing['pop'], covariates=ing['cov'])
+        if variant:
+            nt = h.n_parameters(exclude_bottom_level=True)
+            pr = [pints.LogNormalLogPrior(0.0, 0.4) for _ in range(nt)]
+            return self.chi.HierarchicalLogPosterior(h, pints.ComposedLogPrior(*pr) if nt > 1 else pr[0])
+        return h
+
+    def points(self, k):
+        return [self.rng.uniform(0.5, 1.5, self.n) for _ in range(k)]
+
+    def observe(self, ing):
+        """(the hierarchical likelihood shares the individual likelihoods and the population model with its
+        caller by design: what is observed is that they still EVALUATE the same, and the array handed over)"""
+        x = np.linspace(0.7, 1.2, self.D)
+        return {'covariates': None if ing['cov'] is None else ing['cov'].copy(),
+                'individual log-likelihoods at a point': tuple(attempt(lambda: ll(x)) for ll in ing['lls']),
+                'individual log-likelihoods: names': [list(ll.get_parameter_names()) for ll in ing['lls']]}
+
+    mutate = None
 
 
 class Zoo(object):
@@ -301,6 +558,83 @@ class Zoo(object):
         k = build().n_parameters()
         return 'LogLikelihood/dosed-PKPDModel', build, ev, [rng.uniform(0.5, 1.5, k) for _ in range(2)], []
 
+    def cov_pop(self):
+        """population models with covariates — bare, composed, and inside a ReducedPopulationModel with some of
+        their parameters fixed — evaluated directly (value, individual parameters, sensitivities, sampling)"""
+        chi, rng = self.chi, self.rng
+        shape = int(rng.integers(4))
+        nd, nc = int(rng.integers(1, 3)), int(rng.integers(1, 3))
+        n_ids = int(rng.integers(1, 4))
+        inner = int(rng.integers(3))
+        wrap = rng.random() < 0.7
+        sel = None
+        if rng.random() < 0.6:
+            allp = [[p_, d] for p_ in range(2) for d in range(nd)]
+            sel = [allp[int(j)] for j in rng.choice(len(allp), size=int(rng.integers(1, len(allp) + 1)), replace=False)]
+
+        def covm():
+            b = [chi.GaussianModel(n_dim=nd), chi.GaussianModel(n_dim=nd, centered=False),
+                 chi.LogNormalModel(n_dim=nd)][inner]
+            m = chi.CovariatePopulationModel(b, chi.LinearCovariateModel(nc))
+            if sel is not None:
+                m.set_population_parameters(sel)
+            return m
+
+        def base():
+            if shape == 0:
+                return covm()
+            if shape == 1:
+                return chi.ComposedPopulationModel([chi.PooledModel(n_dim=1), covm()])
+            if shape == 2:
+                return chi.ComposedPopulationModel([covm(), chi.GaussianModel(n_dim=1)])
+            return chi.ComposedPopulationModel([chi.LogNormalModel(n_dim=1), covm(), chi.PooledModel(n_dim=1)])
+        b0 = base()
+        b0.set_n_ids(n_ids)
+        nm0 = b0.get_parameter_names()
+        fixed = {nm0[int(j)]: float(rng.uniform(0.5, 1.5))
+                 for j in rng.choice(len(nm0), size=int(rng.integers(1, min(3, len(nm0) - 1) + 1)), replace=False)}
+
+        def build():
+            b = base()
+            b.set_n_ids(n_ids)
+            if not wrap:
+                return b
+            m = chi.ReducedPopulationModel(b)
+            m.fix_parameters(dict(fixed))
+            return m
+        m0 = build()
+        D = m0.n_dim()
+        psi = rng.uniform(0.5, 1.5, (n_ids, D))
+        cov = rng.normal(size=(n_ids, nc)) * 0.3
+        ev = {'ll': lambda m, x: m.compute_log_likelihood(x, psi, covariates=cov),
+              'indiv': lambda m, x: m.compute_individual_parameters(x, psi, covariates=cov),
+              's1': lambda m, x: m.compute_sensitivities(x, psi, reduce=True, covariates=cov),
+              's1_full': lambda m, x: m.compute_sensitivities(x, psi, covariates=cov),
+              'sample': lambda m, x: m.sample(x, n_samples=n_ids, seed=4, covariates=cov)}
+        k = m0.n_parameters()
+        return ('ReducedPopulationModel' if wrap else 'PopulationModel') + '/covariates-%d' % shape, build, ev, \
+            [rng.uniform(0.5, 1.5, k) for _ in range(3)], [psi, cov]
+
+    def pop_filter(self):
+        """population filters (the five elementary ones and compositions of them): value and sensitivities of
+        simulated measurements, in any order"""
+        chi, rng = self.chi, self.rng
+        mk = FilterMaker(chi, rng, int(rng.integers(1, 3)), int(rng.integers(1, 4)))
+        n_sim = int(rng.integers(2, 5))
+        if 'GaussianMixtureFilter' in mk.classes and n_sim % 2:
+            n_sim += 1
+        ev = {'ll': lambda f, y: f.compute_log_likelihood(y), 's1': lambda f, y: f.compute_sensitivities(y)}
+        return 'PopulationFilter/' + mk.kind, mk, ev, \
+            [rng.uniform(0.5, 2.0, (n_sim, mk.n_obs, mk.n_times)) for _ in range(3)], mk.arrays
+
+    def filter_posterior(self):
+        chi, rng = self.chi, self.rng
+        fp = FilterProblem(chi, rng)
+        ev = {'call': lambda m, x: m(x), 's1': lambda m, x: m.evaluateS1(x)}
+        s_init = int(rng.choice([0, 1, 7]))
+        ev['init'] = lambda m, x: m.sample_initial_parameters(n_samples=2, seed=s_init)
+        return fp.kind, fp.build, ev, fp.points(3), fp.arrays
+
 
 def interleave_case(ctx, kind, build, ev, xs, ext_inputs, rng):
     twin = build()
@@ -323,8 +657,15 @@ def interleave_case(ctx, kind, build, ev, xs, ext_inputs, rng):
              nontrivial='%s/%s' % (kind, plan) if len(set(p[0] for p in plan)) >= 2 else False, sample=inp)
     held = []
     ext_before = [np.array(a, copy=True) for a in ext_inputs]
+    # half of the callers keep ONE parameter array and overwrite it in place before every call
+    buf = np.empty_like(xs[0]) if (rng.random() < 0.5 and all(np.shape(v) == np.shape(xs[0]) for v in xs)) else None
+    inp['caller_reuses_one_parameter_array'] = buf is not None
     for lab, j in plan:
-        x = xs[j].copy()
+        if buf is not None:
+            buf[...] = xs[j]
+            x = buf
+        else:
+            x = xs[j].copy()
         np.random.random(int(rng.integers(1, 4)))      # unrelated use of numpy's global generator in between
         if rng.random() < 0.2:
             # a copy taken in the middle of the sequence evaluates like the untouched twin, and taking and
@@ -358,7 +699,10 @@ def interleave_case(ctx, kind, build, ev, xs, ext_inputs, rng):
         ctx.spec('C19.repeat_interleave/' + kind.split('/')[0], ok, dict(inp, at=[lab, j]),
                  {'got': snap(out), 'single_evaluation_of_untouched_twin': ref[(lab, j)]})
         ctx.spec('C19.input_not_mutated/' + kind.split('/')[0], same(x, xs[j]), dict(inp, at=[lab, j]))
-        held.append((lab, j, out, snap(out)))
+        if buf is None or not any(np.may_share_memory(buf, np.asarray(v)) for v in (out if isinstance(out, tuple) else (out,))
+                                  if isinstance(v, np.ndarray)):
+            # (a result that is a view of the caller's own array changes when the caller overwrites it: not chi's state)
+            held.append((lab, j, out, snap(out)))
     for lab, j, out, at_return in held:
         ctx.spec(TAG17 if lab == 'indiv' else 'C19.earlier_result_changed/' + kind.split('/')[0],
                  same(snap(out), at_return), dict(inp, at=[lab, j]),
@@ -366,6 +710,74 @@ def interleave_case(ctx, kind, build, ev, xs, ext_inputs, rng):
     for a, b in zip(ext_inputs, ext_before):
         ctx.spec('C19.input_not_mutated/' + kind.split('/')[0], same(a, b), inp)
     del twin
+
+
+def shared_ingredients_case(ctx, prob, ev, variants, rng):
+    """several objects are built, one after the other, from the SAME user objects (filter, times, models, prior,
+    covariates …) and evaluated in between; every evaluation is compared with the same evaluation of an object
+    built from ingredients of its own; what the caller can observe of the ingredients (public methods, array
+    contents) is compared before / after every construction and after the evaluations; finally the caller
+    changes his objects and the built ones are evaluated again"""
+    kind = prob.kind.split('/')[0]
+    xs = prob.points(2)
+    labels = sorted(ev)
+    ing = prob.ingredients()
+    before = prob.observe(ing)
+    prog = []
+    inp = {'object': prob.kind, 'program': prog, 'inputs': xs, 'ingredients': sorted(ing)}
+    ref = {}
+
+    def reference(v, lab, j):
+        if (v, lab, j) not in ref:
+            fresh = prob.build_from(prob.ingredients(), v)
+            try:
+                with np.errstate(all='ignore'):
+                    ref[(v, lab, j)] = snap(ev[lab](fresh, xs[j].copy()))
+            except Exception as e:  # noqa
+                ref[(v, lab, j)] = 'raises ' + type(e).__name__
+        return ref[(v, lab, j)]
+
+    def evaluate(i, lab, j, tag):
+        v, o = objs[i]
+        prog.append(['eval', i, lab, j])
+        want = reference(v, lab, j)
+        try:
+            with np.errstate(all='ignore'):
+                got = snap(ev[lab](o, xs[j].copy()))
+        except Exception as e:  # noqa
+            got = 'raises ' + type(e).__name__
+        ok = (got == want) if isinstance(got, str) or isinstance(want, str) else same(got, want)
+        ctx.spec(tag, bool(ok), dict(inp, at=len(prog) - 1),
+                 {'object_number': i, 'got': got, 'object_built_from_ingredients_of_its_own': want})
+        return not isinstance(want, str) and np.all(np.isfinite(np.asarray(want[0] if isinstance(want, tuple) else want, float)))
+
+    def unchanged(stage):
+        bad = obs_equal(before, prob.observe(ing))
+        ctx.spec('C19.ingredients_not_modified/' + kind, not bad, dict(inp, after=stage), {'observations_that_changed': bad})
+
+    objs, informative = [], 0
+    n_obj = int(rng.integers(2, 4))
+    for k in range(n_obj):
+        v = variants[int(rng.integers(len(variants)))]
+        prog.append(['build', v])
+        objs.append((v, prob.build_from(ing, v)))
+        unchanged('construction number %d' % (k + 1))
+        for _ in range(int(rng.integers(0, 3))):
+            informative += evaluate(int(rng.integers(len(objs))), labels[int(rng.integers(len(labels)))],
+                                    int(rng.integers(len(xs))), 'C19.built_from_same_ingredients/' + kind)
+    for i in range(n_obj):
+        for lab in labels:
+            informative += evaluate(i, lab, int(rng.integers(len(xs))), 'C19.built_from_same_ingredients/' + kind)
+    unchanged('evaluations of the built objects')
+    ctx.case('shared-ingredients/%s' % prob.kind, nontrivial='shared/%s/%s' % (prob.kind, [p_[0][0] + str(p_[1]) for p_ in prog])
+             if informative >= 2 else False, sample=inp)
+    if prob.mutate is None:
+        return
+    prob.mutate(ing, rng)
+    prog.append(['the caller changes his own objects'])
+    for i in range(n_obj):
+        evaluate(i, labels[int(rng.integers(len(labels)))], int(rng.integers(len(xs))),
+                 'C19.unaffected_by_later_changes_to_user_models/' + kind)
 
 
 class RecToy(toy.ToyModel):
@@ -935,6 +1347,63 @@ def world_correspondence(ctx, chi, rng):
     ctx.agree('C19.store/final_masks', masks, mo[1], inp)
 
 
+def columns_held(chi, cls, data, f, p0, p1):
+    """the measurement columns (numbers of the columns of `data`) an elementary filter `f` holds at every
+    position, read off its public log-likelihood: replacing the simulated values at ONE position changes the
+    value by an amount that depends on the measurements held at that position only"""
+    n_t = data.shape[2]
+    base = np.repeat(p0[:, :, None], n_t, axis=2)
+    with np.errstate(all='ignore'):
+        l0 = float(f.compute_log_likelihood(base.copy()))
+        want = []
+        for c in range(n_t):
+            g = getattr(chi, cls)(data[:, :, [c]].copy())
+            want.append(float(g.compute_log_likelihood(p1[:, :, None].copy())) - float(g.compute_log_likelihood(p0[:, :, None].copy())))
+        held = []
+        for j in range(n_t):
+            q = base.copy()
+            q[:, :, j] = p1
+            d = float(f.compute_log_likelihood(q)) - l0
+            cand = [c for c in range(n_t) if abs(d - want[c]) <= 1e-6 * (1 + abs(want[c]))]
+            held.append(cand[0] if len(cand) == 1 else '?')
+    return held
+
+
+def construct_correspondence(ctx, chi, rng):
+    """one filter of the caller; posteriors built from it at various moments, the caller re-ordering his filter
+    in between (sort_times): the measurement columns held afterwards by the caller's filter and by the filter
+    of every posterior, against the Lean store model (Ownership.construct: copy, then order the copy)"""
+    cls = FILTER_CLASSES[int(rng.integers(5))]
+    n_t, n_ids, n_s = int(rng.integers(2, 5)), int(rng.integers(3, 6)), 4
+    data = rng.uniform(0.5, 2.0, (n_ids, 1, n_t)) * np.linspace(1.0, 2.0, n_t)[None, None, :]
+    times = np.sort(rng.choice(np.arange(1, 16) * 0.5, n_t, replace=False))[rng.permutation(n_t)]
+    order = [int(v) for v in np.argsort(times)]
+    p0, p1 = rng.uniform(0.8, 1.2, (n_s, 1)), rng.uniform(1.5, 2.5, (n_s, 1))
+    user = getattr(chi, cls)(data.copy())
+    prog, cells, nxt = [], {0: user}, 1
+    for _ in range(int(rng.integers(2, 6))):
+        if rng.random() < 0.7:
+            pr = pints.ComposedLogPrior(*[pints.LogNormalLogPrior(0.0, 0.4) for _ in range(4)])
+            post = chi.PopulationFilterLogPosterior(user, times.copy(), toy.ToyModel(1, 2, 3), chi.GaussianModel(n_dim=2),
+                                                    pr, sigma=[0.2], n_samples=n_s)
+            cells[nxt] = post
+            prog.append(['build', 0, nxt])
+            nxt += 1
+        else:
+            o = [int(v) for v in rng.permutation(n_t)]
+            user.sort_times(np.array(o))
+            prog.append(['sort', 0, o])
+    ks = sorted(cells)
+    seen = [columns_held(chi, cls, data, cells[k] if k == 0 else cells[k].get_log_likelihood(), p0, p1) for k in ks]
+    inp = {'filter': cls, 'times': times, 'argsort(times)': order, 'program': prog}
+    n_build = len([p_ for p_ in prog if p_[0] == 'build'])
+    ctx.case('filter-store/%d-objects' % len(cells),
+             nontrivial='fstore/%s/%s' % (order, [p_[0][0] for p_ in prog]) if n_build >= 2 and order != list(range(n_t)) else False,
+             sample=inp)
+    mo = ctx.model('C19.construct', n_t, order, prog, ks)
+    ctx.agree('C19.construct/columns_held_by_caller_filter_and_built_posteriors', seen, mo[0], inp)
+
+
 def siblings_and_later_mutation(ctx, chi, rng):
     mech = toy.ToyModel(2, 2, int(rng.integers(100)))
     ems = [chi.GaussianErrorModel(), chi.LogNormalErrorModel()]
@@ -1085,25 +1554,44 @@ def controller_request_order(ctx, chi, rng):
              {'first_order': v1, 'second_order': v2, 'all_at_once': v3})
 
 
-def parallel(ctx, chi, rng, n_points=4):
-    build0 = c08.make_ll(chi, rng)
-    ll = build0()
-    n = ll.n_parameters()
-    pr = pints.ComposedLogPrior(*[pints.GaussianLogPrior(1, 2) for _ in range(n)]) if n > 1 \
-        else pints.GaussianLogPrior(1, 2)
-    post = chi.LogPosterior(ll, pr)
-    xs = [list(rng.uniform(0.5, 1.5, n)) for _ in range(n_points)]
-    inp = {'object': 'LogPosterior', 'points': xs}
-    ctx.case('parallel-vs-sequential', nontrivial='parallel/%d' % n, sample=inp)
-    seq = pints.SequentialEvaluator(post).evaluate(xs)
-    try:
-        par = pints.ParallelEvaluator(post, n_workers=2).evaluate(xs)
-    except Exception as e:  # noqa
-        ctx.spec('C19.parallel_evaluation', False, inp, {'raised': repr(e)[:200]})
-        return
-    ctx.spec('C19.parallel_evaluation', same(np.array(seq, float), np.array(par, float)), inp,
-             {'sequential': seq, 'parallel': par})
-    ctx.spec('C19.parallel_evaluation', same(np.array([post(x) for x in xs]), np.array(seq, float)), inp)
+def parallel(ctx, chi, rng, n_points=4, which=0):
+    """pints.ParallelEvaluator (forked workers, each evaluating several points in a row on its copy) and
+    pints.SequentialEvaluator on one object, against one evaluation each on objects of their own"""
+    if which == 0:
+        build0 = c08.make_ll(chi, rng)
+        n = build0().n_parameters()
+
+        def build():
+            pr = pints.ComposedLogPrior(*[pints.GaussianLogPrior(1, 2) for _ in range(n)]) if n > 1 \
+                else pints.GaussianLogPrior(1, 2)
+            return chi.LogPosterior(build0(), pr)
+        name = 'LogPosterior'
+        xs = [list(rng.uniform(0.5, 1.5, n)) for _ in range(n_points)]
+    elif which == 1:
+        # (the population models with the most hidden state: covariates below a wrapper with fixed parameters)
+        fp = FilterProblem(chi, rng, pop_kinds=(3, 4, 5))
+        build, name = fp.build, fp.kind
+        xs = [list(x) for x in fp.points(n_points)]
+    else:
+        hp = HierProblem(chi, rng)
+        build, name = (lambda: hp.build_from(hp.ingredients(), 1)), 'HierarchicalLogPosterior'
+        xs = [list(x) for x in hp.points(n_points)]
+    post = build()
+    inp = {'object': name, 'points': xs}
+    ctx.case('parallel-vs-sequential/' + name.split('/')[0], nontrivial='parallel/%s/%d' % (name, len(xs[0])), sample=inp)
+    with np.errstate(all='ignore'):
+        alone = [float(build()(x)) for x in xs]
+        seq = pints.SequentialEvaluator(post).evaluate(xs)
+        try:
+            par = pints.ParallelEvaluator(post, n_workers=2).evaluate(xs)
+        except Exception as e:  # noqa
+            ctx.spec('C19.parallel_evaluation', False, inp, {'raised': repr(e)[:200]})
+            return
+        again = [float(post(x)) for x in xs]
+    detail = {'sequential': seq, 'parallel': par, 'objects_of_their_own': alone, 'same_object_afterwards': again}
+    ctx.spec('C19.parallel_evaluation', same(np.array(alone), np.array(par, float)), inp, detail)
+    ctx.spec('C19.parallel_evaluation', same(np.array(alone), np.array(seq, float)), inp, detail)
+    ctx.spec('C19.parallel_evaluation', same(np.array(alone), np.array(again)), inp, detail)
 
 
 def run(ctx):
@@ -1113,7 +1601,8 @@ def run(ctx):
         rng = ctx.sub_rng(i)
         z = Zoo(chi, rng)
         makers = [z.reduced_error, z.reduced_pop, z.loglik, lambda: z.loglik(True), z.hier,
-                  lambda: z.hier(True), z.predictive, z.pop_predictive, z.posterior_predictive]
+                  lambda: z.hier(True), z.predictive, z.pop_predictive, z.posterior_predictive,
+                  z.cov_pop, z.filter_posterior, z.pop_filter]
         made = ctx.guard(makers[i % len(makers)])
         if i % 15 == 4 and i < 15 * 40:     # (reference integrator: the slow cases are capped in the thorough tier)
             dosed = ctx.guard(z.pkpd_loglik)
@@ -1150,10 +1639,21 @@ def run(ctx):
             ctx.guard(reduced_mech_reconfigure, ctx, chi, ctx.sub_rng(8 * 10 ** 6 + i))
         if i % 3 == 2:
             ctx.guard(controller_inputs, ctx, chi, ctx.sub_rng(9 * 10 ** 6 + i))
-    ctx.guard(parallel, ctx, chi, ctx.sub_rng(10 ** 7))
+        if i % 4 == 1:
+            r11 = ctx.sub_rng(11 * 10 ** 6 + i)
+            if (i // 4) % 3 < 2:
+                ctx.guard(shared_ingredients_case, ctx, FilterProblem(chi, r11),
+                          {'call': lambda m, x: m(x), 's1': lambda m, x: m.evaluateS1(x)}, [0, 1], r11)
+            else:
+                ctx.guard(shared_ingredients_case, ctx, HierProblem(chi, r11),
+                          {'call': lambda m, x: m(x), 's1': lambda m, x: m.evaluateS1(x)}, [0, 1], r11)
+        if i % 6 == 3:
+            ctx.guard(construct_correspondence, ctx, chi, ctx.sub_rng(12 * 10 ** 6 + i))
+    for w in range(3):
+        ctx.guard(parallel, ctx, chi, ctx.sub_rng(10 ** 7 + 100 * w), 4, w)
     if ctx.tier == 'thorough':
-        for j in range(4):
-            parallel(ctx, chi, ctx.sub_rng(10 ** 7 + 1 + j), n_points=8)
+        for j in range(9):
+            ctx.guard(parallel, ctx, chi, ctx.sub_rng(10 ** 7 + 1 + j), 8, j % 3)
 
 
 def replay(ctx, data):
